@@ -193,6 +193,43 @@ contract(R + "Context.add_cleanup", props=P,
          doc="old(cl_target(self, kwargs)) = the innermost scope named by layer= when a (truthy) layer is given, else the current scope; "
              "which scope a name denotes is _select_stack_frame_by_layer's own contract (proved above)")
 
+# -- generator fixtures: the teardown part is registered before the setup part runs -------------------------------------
+FX = "behave.fixture:"
+ghost("fx_n", "int")
+ghost("fx_kind", "array")
+oracle("fx_is_generator", ["val"], "bool")
+oracle("fx_setup_raises", ["val", "int"], "bool")
+oracle("fx_setup_result", ["val", "int"], "val")
+contract("abs:is_context_manager", trusted=True, pos_params=["func"], pure=True, result="bool",
+         ensures={"value": "result == fx_is_generator(func)"}, doc="is the fixture function a generator function (inspect: A-lib)")
+contract("user:fixture_func", trusted=True, pos_params=["callee", "context"], vararg="a", kwarg="kw", pure=True, result="any",
+         doc="calling a generator fixture function creates the generator object and runs nothing yet; a plain fixture function "
+             "runs its setup (A-user)")
+contract("abs:Context.add_cleanup.fixture", trusted=True, pos_params=["self", "cleanup_func"], modifies=["G_fx_n", "G_fx_kind", "lists"],
+         ghost_stores=[("fx_kind", "G_fx_n", "'register-teardown'")], ensures={"logged": "G_fx_n == old(G_fx_n) + 1"},
+         doc="context.add_cleanup(cleanup_fixture): proved contract of Context.add_cleanup above; here only the order of events")
+contract("user:fixture_setup_part", trusted=True, pos_params=["it"], modifies=["G_fx_n", "G_fx_kind"],
+         ghost_stores=[("fx_kind", "G_fx_n", "'setup-part'")],
+         raises=[Raises("Exception", when="fx_setup_raises(it, G_fx_n)", ensures={"logged": "G_fx_n == old(G_fx_n) + 1"})],
+         ensures={"logged": "G_fx_n == old(G_fx_n) + 1 and result == fx_setup_result(it, old(G_fx_n))"}, result="any",
+         doc="next(generator): runs the setup part up to the yield; may raise (A-user)")
+N0F = "old(G_fx_n)"
+contract(FX + "_setup_fixture", props=P, params={"fixture_func": "any", "context": "ref:Context", "fixture_args": "tuple:any", "fixture_kwargs": "dict"},
+         callsites={"is_context_manager": "abs:is_context_manager", "fixture_func": "user:fixture_func",
+                    "context.add_cleanup": "abs:Context.add_cleanup.fixture", "next": "user:fixture_setup_part"},
+         modifies=["G_fx_n", "G_fx_kind", "lists"],
+         raises=[Raises("Exception", when=None, label="the-setup-part-raised",
+                        ensures={"the-teardown-part-was-registered-before-the-setup-part-ran":
+                                 "implies(fx_is_generator(fixture_func), G_fx_n == %s + 2 and G_fx_kind(%s) == 'register-teardown' "
+                                 "and G_fx_kind(%s + 1) == 'setup-part')" % (N0F, N0F, N0F)})],
+         ensures={"the-teardown-part-is-registered-before-the-setup-part-runs":
+                  "implies(fx_is_generator(fixture_func), G_fx_n == %s + 2 and G_fx_kind(%s) == 'register-teardown' "
+                  "and G_fx_kind(%s + 1) == 'setup-part')" % (N0F, N0F, N0F),
+                  "a-plain-fixture-function-registers-nothing": "implies(not fx_is_generator(fixture_func), G_fx_n == %s)" % N0F},
+         doc="registration first: cleanups the setup part registers itself (nested fixtures, add_cleanup) are then newer than "
+             "the fixture's own teardown, so the reverse-order rule runs them first; and the teardown is in place when the "
+             "setup part raises half-way")
+
 prop("C13", level="proof", bounded=[],
      explanation="proved on the real Context methods: attribute lookup returns the value of the innermost open scope that has "
                  "the key and raises AttributeError iff none has it; `in` likewise; deletion removes the key from the current "
@@ -204,7 +241,8 @@ prop("C13", level="proof", bounded=[],
                  "name (LookupError if there is none) -- unless already registered there, and changes no other scope's list; layer lookup finds the innermost "
                  "scope of that name. Scope balance of every run method and 'raising cleanup fails the element and the run' "
                  "are proved over the abstract Context in the run-method contracts. Bounded: __setattr__ (stack inspection, "
-                 "warnings), use_fixture, execute_steps, whole operation histories",
+                 "warnings), use_fixture's composition of fixtures, execute_steps, whole operation histories; _setup_fixture "
+                 "registers the teardown part of a generator fixture before its setup part runs (also when the setup part raises)",
      technique="contract-based deductive verification (own VC generator over the real ASTs, z3/cvc5) of the Context methods "
                "and of scope balance in the run methods; bounded model-based histories for the rest",
      notes=_RUN_NOTES + ["user cleanups are assumed not to push/pop scopes or edit the cleanup list they are run from (A-user)",
